@@ -24,7 +24,7 @@ def zx_sig(quick):
     sig = []
     shapes = [(i, j) for i in range(4) for j in range(4) if 0 < i + j <= (3 if quick else 4)]
     for i, j in shapes:
-        for p in ((0, 0.25) if quick else (0, 0.25, 0.3)):
+        for p in ((0, 0.25, -0.25) if quick else (0, 0.25, 0.3, -0.25, -0.7)):
             sig.append(("e", "Z(%d, %d, %r)" % (i, j, p)))
             sig.append(("e", "X(%d, %d, %r)" % (i, j, p)))
     sig += [("e", "H"), ("e", "SWAP"), ("e", "scalar(0.5)"), ("e", "scalar(1j)")]
